@@ -48,6 +48,11 @@ Proof. exact: tonumpy_spec. Qed.
 Theorem C19_tonumpy_rejects p : ~~ isconstant p -> tonumpy p = Err FeatureNotSupported.
 Proof. exact: tonumpy_nonconstant. Qed.
 
+(* ... and ONLY non-constants are rejected: every well-formed constant array converts, also one that stores no constant
+   term at all (only retained all-zero terms; the zero array - fix D35) *)
+Theorem C19_tonumpy_constant p : wfb p -> isconstant p -> exists v, tonumpy p = Ok (shape p, v).
+Proof. exact: tonumpy_constant. Qed.
+
 Theorem C19_decompose_slice p j i : wfb p ->
   (j < size (rows p))%N -> (i < psize p)%N ->
   absE n (decompose p) (j * psize p + i) = cell (cols p) j i *: 'X_[mon n (names p) (nth [::] (rows p) j)].
@@ -218,7 +223,7 @@ Proof. by split; vm_compute. Qed.
 
 (* the sources these models were written from are still the modelled ones, statement by statement *)
 Theorem C19_sources_are_the_modelled_ones :
-  all (all id) gen_query_facts /\ [seq size f | f <- gen_query_facts] = [:: 7; 6; 7; 3; 5; 2; 4; 4; 8; 8; 5]%N.
+  all (all id) gen_query_facts /\ [seq size f | f <- gen_query_facts] = [:: 7; 6; 7; 3; 7; 2; 4; 4; 8; 8; 5]%N.
 Proof. exact: bridge_query_facts. Qed.
 
 Print Assumptions C19_lead_is_largest.
@@ -228,6 +233,7 @@ Print Assumptions C19_lead_coefficient.
 Print Assumptions C19_isconstant.
 Print Assumptions C19_tonumpy.
 Print Assumptions C19_tonumpy_rejects.
+Print Assumptions C19_tonumpy_constant.
 Print Assumptions C19_decompose_slice.
 Print Assumptions C19_decompose_sum.
 Print Assumptions C19_set_dimensions_grow.
